@@ -566,7 +566,10 @@ class KafkaClient(object):
                     log.warning("No leader for topic %s partition %s", topic, partition)
                     self.topics_to_brokers[topic_part] = None
                 else:
-                    self.topics_to_brokers[topic_part] = brokers[meta.leader]
+                    # A leader which is not among the brokers of this response
+                    # is looked up among the known brokers. If it is unknown
+                    # the partition is treated as leaderless.
+                    self.topics_to_brokers[topic_part] = self._brokers.get(meta.leader)
             self.topic_partitions[topic].sort()
 
     def load_consumer_metadata_for_group(self, group):
